@@ -2,7 +2,8 @@
 (* Model-checking instances of Growth_InstrumentView.  The cfg files give the bounds:                    *)
 (*   Growth_MC_InstrumentView.cfg           quick: every call with <= 2 components on a small grid, all   *)
 (*                                          invariants and action properties                             *)
-(*   Growth_MC_InstrumentView_thorough.cfg  every call with <= 2 components on the full grid             *)
+(*   Growth_MC_InstrumentView_thorough.cfg  every call with <= 2 components on a larger grid (3 detectors, *)
+(*                                          8 centres, 3 sizes)                                          *)
 (*   Growth_MC_InstrumentView_emit.cfg      every call with <= 1 component on the full grid, printed     *)
 (*   Growth_MC_InstrumentView_pairs.cfg     every call with <= 2 components (both dict orders) on a grid *)
 (*                                          of near / far / tied components, printed                     *)
